@@ -90,7 +90,16 @@ func pathsOf(ls []Leaf) []string {
 func envOf(ls []Leaf) [][2]string {
 	out := make([][2]string, len(ls))
 	for i, l := range ls {
-		out[i] = [2]string{EnvName(l.Path), l.Val}
+		v := l.Val
+
+		// a string of digits is quoted in the file (it would be a number otherwise); in the environment it is just the digits
+		// where the option is a typed one (the free-form configuration of a mechanism or provider keeps what the value looks like: there
+		// the quotes are needed in the environment too)
+		if !strings.HasPrefix(l.Path, "mechanisms.") && !strings.HasPrefix(l.Path, "providers.") && len(v) > 2 && v[0] == '"' && v[len(v)-1] == '"' && strings.Trim(v[1:len(v)-1], "0123456789") == "" {
+			v = v[1 : len(v)-1]
+		}
+
+		out[i] = [2]string{EnvName(l.Path), v}
 	}
 
 	return out
